@@ -50,6 +50,13 @@ type triggeredWindowInfo struct {
 	slot         *types.TimeSlot
 	closeTime    time.Time   // window end + allowedLateness
 	snapshotData []types.Row // snapshot of window data when first triggered
+	// The first firing is handed to the output channel with the window lock
+	// released. firing is true while that is in progress; a late event arriving
+	// meanwhile only sets pendingLate, and its update is emitted right after the
+	// first firing — otherwise the update could overtake the (older) first result
+	// and a sink replacing results by window_id would end up with the stale one.
+	firing      bool
+	pendingLate bool
 }
 
 // TumblingWindow represents a tumbling window for collecting data and triggering processing at fixed time intervals
@@ -529,6 +536,7 @@ func (tw *TumblingWindow) checkAndTriggerWindows(watermarkTime time.Time) {
 					slot:         currentSlot,
 					closeTime:    closeTime,
 					snapshotData: snapshotData, // Save snapshot for late updates
+					firing:       len(resultData) > 0,
 				}
 				debugLog("checkAndTriggerWindows: window [%v, %v) kept open for late data until %v",
 					windowStart.UnixMilli(), windowEnd.UnixMilli(), closeTime.UnixMilli())
@@ -549,6 +557,16 @@ func (tw *TumblingWindow) checkAndTriggerWindows(watermarkTime time.Time) {
 				}
 				tw.sendResult(resultData)
 				tw.mu.Lock()
+			}
+			if allowedLateness > 0 {
+				// First firing delivered: emit the update for late events held back meanwhile.
+				if info, ok := tw.triggeredWindows[tw.getWindowKey(currentSlotEnd)]; ok {
+					info.firing = false
+					if info.pendingLate {
+						info.pendingLate = false
+						tw.emitLateUpdateLocked(info.slot)
+					}
+				}
 			}
 
 			triggeredCount++
@@ -613,19 +631,31 @@ func (tw *TumblingWindow) handleLateData(eventTime time.Time, allowedLateness ti
 	for _, info := range tw.triggeredWindows {
 		if info.slot.Contains(eventTime) {
 			// This late data belongs to a triggered window that's still open
-			// Trigger window again with updated data (late update)
-			resultData := tw.extractLateUpdateDataLocked(info.slot)
-			if len(resultData) > 0 {
-				callback := tw.callback
-				tw.mu.Unlock()
-				if callback != nil {
-					callback(resultData)
-				}
-				tw.sendResult(resultData)
-				tw.mu.Lock()
+			if info.firing {
+				// its first firing is still on the way out: the trigger goroutine emits
+				// the update right after it (the row stays in tw.data until then)
+				info.pendingLate = true
+				return
 			}
+			// Trigger window again with updated data (late update)
+			tw.emitLateUpdateLocked(info.slot)
 			return
 		}
+	}
+}
+
+// emitLateUpdateLocked re-emits a triggered window with its late rows. Called
+// with tw.mu held; releases it while delivering.
+func (tw *TumblingWindow) emitLateUpdateLocked(slot *types.TimeSlot) {
+	resultData := tw.extractLateUpdateDataLocked(slot)
+	if len(resultData) > 0 {
+		callback := tw.callback
+		tw.mu.Unlock()
+		if callback != nil {
+			callback(resultData)
+		}
+		tw.sendResult(resultData)
+		tw.mu.Lock()
 	}
 }
 
